@@ -9,6 +9,8 @@ the hand-off of a free lock, happen before time passes) — the fairness hypothe
 asyncio.Lock is assumed FIFO (it is, in CPython: `acquire` only takes the fast path when nobody is parked).
 -/
 import GeckoModel.Proofs.RequestTiming
+import GeckoModel.Proofs.Coop
+import GeckoModel.Generated.Skeletons
 
 namespace GeckoModel.C06
 open GeckoModel.Request
@@ -157,5 +159,37 @@ def exRun : Option RSys := run true init
    [.tick 2000, .resume 1, .pollStep 1 (some 77), .handoff, .pollStep 2 (some 78)])
 example : (exRun.map (fun s => (s.now, s.acquired, s.waitq, s.holder))) = some (6100, [1, 2], [], none) := by decide +kernel
 example : ((exRun.bind (·.callers 1)).map (fun c => (c.sends, c.pc))) = some ([0, 6100], .done (some 77)) := by decide +kernel
+
+/-! ### why "a caller holds the connection from its first attempt to its completion" is how the model above treats `get`
+
+The transition system of `Model/Request.lean` gives the lock to one caller for ALL its attempts.  The skeleton of
+`GeckoAsyncUdpProtocol.get` is regenerated from the source on every run; the analysis is sound for every trace (`scan_accepts`). -/
+namespace LockShape
+open GeckoModel.Coop GeckoModel.Generated.Skeletons
+
+def isAcq (a : A) : Bool := a.kind == .acquired && a.name == "self.Lock"
+def isRel (a : A) : Bool := a.kind == .release && a.name == "self.Lock"
+def isSend (a : A) : Bool := a.kind == .call && a.name == "queue_send"
+
+abbrev getSk := sk_driver_async_udp_protocol__GeckoAsyncUdpProtocol_get
+
+/-- every transmission of a request happens while its caller holds the connection lock, and one call takes the lock ONCE (it is
+not given up between the attempts, so a later caller cannot overtake an earlier one that is retrying) -/
+theorem get_lock_shape : alwaysHeld isAcq isRel isSend getSk = true ∧ atMostOnce isAcq getSk = true := by decide +kernel
+
+/-- … for EVERY trace of `get`: both monitors accept it -/
+theorem get_traces_one_lock_bracket (t : List Ev) (o : Out) (h : Run getSk t o) :
+    (runMon (heldMon isAcq isRel isSend) 0 t).isSome = true ∧ (runMon (onceMon isAcq) 0 t).isSome = true :=
+  ⟨scan_accepts _ 4 getSk 0 get_lock_shape.1 t o h, scan_accepts _ 4 getSk 0 get_lock_shape.2 t o h⟩
+
+/-- non-vacuity: `get` does transmit and does take the lock -/
+example : "queue_send" ∈ actions .call getSk ∧ "self.Lock" ∈ actions .acquired getSk := by decide +kernel
+
+/-- non-vacuity: a lock taken per attempt (inside the retry loop) is rejected -/
+example : atMostOnce isAcq (.loop (.seq (.ev (.act ⟨.acquired, "self.Lock"⟩))
+    (.seq (.ev (.act ⟨.call, "queue_send"⟩)) (.seq (.ev (.act ⟨.release, "self.Lock"⟩)) (.ev (.aw "config_sleep")))))) = false := by
+  decide +kernel
+
+end LockShape
 
 end GeckoModel.C06
